@@ -324,9 +324,23 @@ func (c *reusableConn) exchange(ctx context.Context, q *[]byte) (*[]byte, error)
 		waitRespTimeout = c.t.testWaitRespTimeout
 	}
 	c.c.SetDeadline(time.Now().Add(waitRespTimeout))
+
+	// A reply that was already handed over wins over any error.
+	takeResp := func() *[]byte {
+		select {
+		case r := <-respChan:
+			return r
+		default:
+			return nil
+		}
+	}
+
 	_, err := c.c.Write(*q)
 	if err != nil {
 		c.closeWithErr(err)
+		if r := takeResp(); r != nil {
+			return r, nil
+		}
 		return nil, err
 	}
 
@@ -334,8 +348,14 @@ func (c *reusableConn) exchange(ctx context.Context, q *[]byte) (*[]byte, error)
 	case resp := <-respChan:
 		return resp, nil
 	case <-c.closeNotify:
+		if r := takeResp(); r != nil {
+			return r, nil
+		}
 		return nil, c.closeErr
 	case <-ctx.Done():
+		if r := takeResp(); r != nil {
+			return r, nil
+		}
 		return nil, context.Cause(ctx)
 	}
 }
